@@ -82,6 +82,29 @@ pub fn neighbours(ctx: &Ctx) {
     }
 }
 
+/// payloads behind a lot of data: a blob and an image (with masks, one of them empty) behind
+/// 100 KiB .. 4 MiB of other content, so that physical and logical offsets differ by whole pages
+pub fn behind(ctx: &Ctx) {
+    let big = [100usize << 10, 244_000, 245_000, 250_000, 1 << 20, 4 << 20][ctx.pick("bytes-in-front", 6)];
+    let tail = ctx.pick("tail", 3);
+    let mut img = image(4, true, 900, 9);
+    if let Some(v) = &mut img.visual {
+        if let Some(m) = &mut v.mask {
+            m.data.clear();
+        }
+    }
+    let mut ops = vec![Op::Blob(pattern(1, big)), Op::Blob(pattern(2, 1001)), Op::Image(img)];
+    match tail {
+        0 => {}
+        1 => ops.push(Op::Blob(pattern(3, 5))),
+        _ => ops.push(Op::Cloud(cloud(crate::cat::xyz(crate::cat::F32), 300, 4))),
+    }
+    let p = Program { guid: "g".into(), ops, ..Default::default() };
+    if roundtrip_src(ctx, &p, P, SRC_MODES[tail]).is_some() {
+        ctx.nontrivial();
+    }
+}
+
 /// many images: 255 / 256 / 257 / 300 images in one file, every payload unique, kinds and masks
 /// rotating; each descriptor must lead to its own data
 pub fn many(ctx: &Ctx) {
